@@ -614,7 +614,7 @@ fn cli_option(g: &mut Gen) -> Vec<String> {
 }
 
 fn cli_positional(g: &mut Gen, oc: &OCal) -> String {
-    match g.rng.below(12) {
+    match g.rng.below(13) {
         0..=3 => g.jdn(oc).to_string(),
         4..=7 => {
             let j = g.jdn(oc);
@@ -641,6 +641,13 @@ fn cli_positional(g: &mut Gen, oc: &OCal) -> String {
             s.push_str(mb);
             s.extend(std::iter::repeat(fill).take(n - at));
             if fill == '-' { format!("x{s}") } else { s }
+        }
+        12 => {
+            // dates with a year at the ends of the type and a day / month / ordinal that does not
+            // exist: the error that is reported carries the year (messages are formatted too)
+            let y = *g.rng.pick(&[I32_MIN, I32_MIN + 1, I32_MAX, I32_MAX - 1, -5884323, 5874898, 0, -1]);
+            let tail = *g.rng.pick(&["01-32", "02-30", "13-01", "00-10", "400", "000", "366", "12-00", "02-29"]);
+            format!("{y}-{tail}")
         }
         _ => (*g.rng.pick(&["+5", "-0", "0", "-", "", " 5", "5 ", "2147483648", "-2147483649", "1-1", "-1-1-1", "abc"])).to_string(),
     }
@@ -690,6 +697,14 @@ pub fn emit(prop: &str, g: &mut Gen, out: &mut Vec<String>) {
                             });
                         }
                         push(out, format!("hist {ct} {j} {}", ops.join(" ")));
+                        // ordinals of the dates `dates()` hands out when the iterator is driven
+                        // through next / nth / nth_back mixes (an iterator that derives a date from
+                        // the previous one must not lose count when items are skipped)
+                        if g.rng.chance(1, 4) {
+                            let n = 3 + g.rng.below(6);
+                            let dops: String = (0..n).map(|_| *g.rng.pick(&['f', 'f', 'n', 'm', 'b', 'N', 'M', 'f', 'b'])).collect();
+                            push(out, format!("dates_ops {ct} {y} {m} {dops}"));
+                        }
                         // the last day of the year and the first of the next
                         if let Some((a, b)) = oc.year_span(y) {
                             if (I32_MIN..=I32_MAX).contains(&a) && (I32_MIN..=I32_MAX).contains(&b) {
@@ -776,6 +791,17 @@ pub fn emit(prop: &str, g: &mut Gen, out: &mut Vec<String>) {
                         let j2 = g.jdn(&o2);
                         let steps = *g.rng.pick(&["s", "p", "s s", "p p", "s p", "L", "E", "A", "a"]);
                         push(out, format!("hist {c2} {j2} c{ct} {steps}"));
+                    }
+                    // the days the open-ended iterators hand out in the proleptic calendars when one
+                    // iterator is stepped, jumped ahead (a month, a year, four years) and stepped on
+                    if g.rng.chance(1, 4) {
+                        let (y, _, _) = oc.label(j);
+                        let start = oc.find(y, 2, 20 + g.rng.range(0, 8)).unwrap_or(j);
+                        if (I32_MIN..=I32_MAX).contains(&start) {
+                            let k = *g.rng.pick(&["later", "and_later", "earlier", "and_earlier"]);
+                            let jump = *g.rng.pick(&['g', 'y', 'Y', 'q']);
+                            push(out, format!("iterx {k} {ct} {start} {}{jump}{}", "x".repeat(1 + g.rng.below(3) as usize), "x".repeat(3 + g.rng.below(10) as usize)));
+                        }
                     }
                 }
                 1 => {
@@ -968,6 +994,19 @@ pub fn emit(prop: &str, g: &mut Gen, out: &mut Vec<String>) {
                     let n = 1 + g.rng.below(6);
                     let ops: String = (0..n).map(|_| *g.rng.pick(&['x', 'x', 'n', 'm', 'k', 'S', 'H'])).collect();
                     push(out, format!("iterx {k} {ct} {j} {ops}x"));
+                    // one iterator stepped, then jumped a month / a year / four years ahead, then
+                    // stepped again over a month end (state kept across a jump must not go stale)
+                    if g.rng.chance(1, 2) {
+                        let (y, _, _) = oc.label(j);
+                        let feb = oc.find(y, 2, 20 + g.rng.range(0, 8)).unwrap_or(j);
+                        let start = if g.rng.chance(1, 2) { feb } else { j };
+                        if (I32_MIN..=I32_MAX).contains(&start) {
+                            let jump = *g.rng.pick(&['g', 'y', 'Y', 'q', 'k']);
+                            let pre = "x".repeat(1 + g.rng.below(3) as usize);
+                            let post = "x".repeat(2 + g.rng.below(12) as usize);
+                            push(out, format!("iterx {k} {ct} {start} {pre}{jump}{post}"));
+                        }
+                    }
                 }
                 _ => {
                     // into the range limits
